@@ -61,6 +61,111 @@ def monotone(chk, repo):
            f"{n} uses: created in __init__, tested, added to")
 
 
+def free_exec(chk, repo, f, sym):
+    """find_free_address() by abstract execution against a bus model: the
+    draws of randint are scripted, a configured-address read is answered by
+    the terminals of the scenario and fails with EtherCatError elsewhere,
+    and at every suspension point a second task looking for an address
+    takes the candidate just drawn if this task has not reserved it yet.
+    False when the function cannot be evaluated."""
+    ec = repo.cls(E + "EtherCat")
+    scen = [   # used before, terminals answering, draws
+        (set(), set(), [1200]),
+        ({1200}, set(), [1200, 1200, 1300]),
+        (set(), {1200}, [1200, 1300]),
+        ({5, 6}, {7, 8}, [5, 7, 6, 8, 7, 5, 9]),
+        (set(), {2000, 2001, 2002}, [2000, 2001, 2000, 2002, 2001, 2003]),
+        ({29999}, {1000}, [29999, 1000, 30000]),
+    ]
+    bad = []
+    n = 0
+    for used0, occ, draws in scen:
+        for rng in ((1000, 30000), (7, 99)):
+            n += 1
+            used = set(used0)
+            todo = list(draws)
+            drawn, probes, stolen, rargs = [], [], set(), []
+
+            def ri(*a, _t=todo, _d=drawn, _r=rargs):
+                _r.append(a)
+                if not _t:
+                    raise Budget("more candidates drawn than the scenario "
+                                 "needs")
+                _d.append(_t.pop(0))
+                return _d[-1]
+
+            def rt(cmd, addr, offset, *args, _u=used, _d=drawn, _p=probes,
+                   _s=stolen, _o=occ, **kw):
+                if _d and _d[-1] not in _u:
+                    _s.add(_d[-1])      # the other task reserves it now
+                    _u.add(_d[-1])
+                _p.append((getattr(cmd, "name", cmd), addr, offset,
+                           addr in _u))
+                if addr in _o:
+                    return (addr,)
+                raise Raised("EtherCatError: datagram was not processed")
+            me = Obj(ec, {"roundtrip": ("hook", rt), "used_addresses": used,
+                          "terminal_addr_range": rng})
+            try:
+                r = Evaluator(repo, f._module, ec, {
+                    "randint": ("hook", ri)}).call_function(f, [me], cls=ec)
+            except Budget as e:
+                r = f"does not end ({e})"
+            except Unknown:
+                return False
+            except Raised as e:
+                r = f"raises {e.what}"
+            tag = (f"used {sorted(used0)}, terminals at {sorted(occ)}, "
+                   f"draws {draws}")
+            exp, seen, want = None, set(used0), []
+            for d in draws:
+                if d in seen:
+                    continue
+                seen.add(d)
+                want.append(("FPRD", d, 0x10, True))
+                if d not in occ:
+                    exp = d
+                    break
+            if any(a != rng for a in rargs) or not rargs:
+                bad.append(("R25.3", f"{tag}: randint{rargs[:1]} instead of "
+                            f"the configured range {rng}"))
+            elif r in stolen:
+                bad.append(("R25.1", f"{tag}: {r} is handed out although a "
+                            f"second task could reserve it at a suspension "
+                            f"point before this one did"))
+            elif r != exp:
+                bad.append(("R25.2", f"{tag}: returns {r!r}, expected "
+                            f"{exp}" + (" (a used address)" if r in used0
+                                        else " (a terminal answers there)"
+                                        if r in occ else "")))
+            elif probes != want:
+                k = next((i for i, (a, b) in enumerate(zip(probes, want))
+                          if a != b), min(len(probes), len(want)))
+                got = probes[k] if k < len(probes) else None
+                bad.append(("R25.1" if got and got[:3] == want[k][:3]
+                            else "R25.2",
+                            f"{tag}: probe {k} is {got}, expected "
+                            f"{want[k] if k < len(want) else None} "
+                            f"(command, address, register, reserved "
+                            f"before the probe)"))
+            elif not (used0 | set(p[1] for p in want)) <= used:
+                bad.append(("R25.1", f"{tag}: used_addresses ends as "
+                            f"{sorted(used)}"))
+    for rule, what in (
+            ("R25.1", "a candidate already in use is skipped, a new one is "
+             "reserved before its probe is sent and no second task can "
+             "reserve it in between"),
+            ("R25.2", "a candidate is returned only after its configured-"
+             "address read (FPRD, register 0x10) failed with EtherCatError; "
+             "one that answered is never returned"),
+            ("R25.3", "candidates are drawn from terminal_addr_range")):
+        mine = [w for r_, w in bad if r_ == rule]
+        chk.ob(rule, sym, f"{what} ({n} scenarios by abstract execution "
+               f"against a bus model)", not mine, f,
+               "; ".join(mine[:2]) or "as the reference behaviour")
+    return True
+
+
 def run(chk, repo):
     chk.doc("R25.6", "the set of used addresses is per master")
     per_instance_rule(chk, repo, "R25.6", ["ebpfcat.ethercat.EtherCat"], "bookkeeping of one bus "
@@ -83,38 +188,56 @@ def run(chk, repo):
     rd = ReachingDefs(cfg)
     # check-then-add, whatever the shape of the search: every path to a
     # `used_addresses.add(x)` comes through the 'absent' branch of a test
-    # of x against used_addresses, with no suspension point in between
-    adds0 = [(n, b_["x"]) for n in cfg.nodes if n.expr is not None
-             for _, b_ in find("self.used_addresses.add($x)", n.expr)]
-    chk.floor("R25.1", "reservations in find_free_address", len(adds0), 1)
-    for an, x in adds0:
-        xs = unparse(x)
+    # of x against used_addresses, with no suspension point in between;
+    # in find_free_address and in the helpers of the class it calls
+    scan = [(sym, f, cfg)]
+    eci = repo.cls(E + "EtherCat")
+    for c_ in ast.walk(f):
+        if isinstance(c_, ast.Call) and isinstance(c_.func, ast.Attribute) \
+                and unparse(c_.func.value) == "self":
+            _, h_ = repo.lookup(eci, c_.func.attr)
+            if isinstance(h_, FUNC) and h_ is not f and find(
+                    "self.used_addresses.add($x)", h_):
+                scan.append((E + "EtherCat." + h_.name, h_,
+                             CFG(h_, raises="await")))
+                chk.analysed(scan[-1][0])
+    nadds = 0
+    for sym_, f_, cfg_ in scan:
+        adds0 = [(n, b_["x"]) for n in cfg_.nodes if n.expr is not None
+                 for _, b_ in find("self.used_addresses.add($x)", n.expr)]
+        nadds += len(adds0)
+        for an, x in adds0:
+            xs = unparse(x)
 
-        def absent_edge(a, b, lab, _x=xs):
-            if a.kind != "test":
+            def absent_edge(a, b, lab, _x=xs):
+                if a.kind != "test":
+                    return False
+                if match(f"{_x} in self.used_addresses", a.expr) is not None:
+                    return lab not in ("true", "exc")
+                if match(f"{_x} not in self.used_addresses",
+                         a.expr) is not None:
+                    return lab == "true"
                 return False
-            if match(f"{_x} in self.used_addresses", a.expr) is not None:
-                return lab not in ("true", "exc")
-            if match(f"{_x} not in self.used_addresses", a.expr) is not None:
-                return lab == "true"
-            return False
-        starts = [cfg.entry] + [n for n in cfg.nodes if n.expr is not None
-                                and n is not an and any(
-                                    isinstance(y, ast.Await)
-                                    for y in walk_expr(n.expr))]
-        # also a re-binding of x makes an earlier test worthless
-        starts += [n for n in cfg.nodes if n.kind in ("stmt", "iter") and any(
-            d.var == xs for d in node_defs_(n))]
-        reach = cfg.reach_edges(starts, lambda a, b, lab: not absent_edge(
-            a, b, lab))
-        ok = an not in reach
-        chk.ob("R25.1", sym, f"`{xs}` is reserved only right after it was "
-               f"tested absent (no await, no re-binding in between)", ok,
-               an.stmt, "if i in used_addresses: continue ... add(i)" if ok
-               else f"used_addresses.add({xs}) is reachable from the entry, "
-               f"an await or a new binding of `{xs}` without passing the "
-               f"test: two tasks assigning addresses concurrently can "
-               f"reserve - and hand out - the same address")
+            starts = [cfg_.entry] + [
+                n for n in cfg_.nodes if n.expr is not None and n is not an
+                and any(isinstance(y, ast.Await) for y in walk_expr(n.expr))]
+            # also a re-binding of x makes an earlier test worthless
+            starts += [n for n in cfg_.nodes if n.kind in ("stmt", "iter")
+                       and any(d.var == xs for d in node_defs_(n))]
+            reach = cfg_.reach_edges(starts, lambda a, b, lab:
+                                     not absent_edge(a, b, lab))
+            ok = an not in reach
+            chk.ob("R25.1", sym_, f"`{xs}` is reserved only right after it "
+                   f"was tested absent (no await, no re-binding in between)",
+                   ok, an.stmt, "if i in used_addresses: continue ... add(i)"
+                   if ok else f"used_addresses.add({xs}) is reachable from "
+                   f"the entry, an await or a new binding of `{xs}` without "
+                   f"passing the test: two tasks assigning addresses "
+                   f"concurrently can reserve - and hand out - the same "
+                   f"address")
+    chk.floor("R25.1", "reservations in find_free_address", nadds, 1)
+    if free_exec(chk, repo, f, sym):
+        return rest(chk, repo)
     draws = [n for n in cfg.nodes if n.kind == "stmt" and isinstance(
         n.stmt, ast.Assign) and find("randint($*a)", n.stmt.value)]
     need(len(draws) == 1 and isinstance(draws[0].stmt.targets[0], ast.Name),
@@ -181,6 +304,10 @@ def run(chk, repo):
                "failed with EtherCatError", bool(ok), r.stmt,
                "return i inside `except EtherCatError` of the try around "
                "the probe")
+    return rest(chk, repo)
+
+
+def rest(chk, repo):
     # R25.3: the range is class-level configuration
     ec = repo.cls(E + "EtherCat")
     v = ec.attrs.get("terminal_addr_range")
